@@ -423,11 +423,23 @@ func TestVerifProc(t *testing.T) {
 // with WithMiddleware from a shared slice (with spare capacity) for several actors.
 // ---------------------------------------------------------------------------------------------
 
-func runMwOpts(t testing.TB, ncommon, spare, nactors int) string {
+type vMwSpawn struct {
+	fn   func(*Context)
+	opts []OptFunc
+	ack  chan *PID
+}
+
+func runMwOpts(t testing.TB, ncommon, spare, nactors int, asChild bool) string {
 	e, err := NewEngine(NewEngineConfig())
 	if err != nil {
 		t.Fatal(err)
 	}
+	// asChild: the actors are spawned through Context.SpawnChildFunc of a parent instead of Engine.SpawnFunc
+	parent := e.SpawnFunc(func(c *Context) {
+		if m, ok := c.Message().(vMwSpawn); ok {
+			m.ack <- c.SpawnChildFunc(m.fn, "mw", m.opts...)
+		}
+	}, "mwparent", WithID(strconv.FormatInt(atomic.AddInt64(&vProcSeq, 1), 10)))
 	common := make([]MiddlewareFunc, 0, ncommon+spare)
 	type rec struct {
 		mu   sync.Mutex
@@ -466,11 +478,23 @@ func runMwOpts(t testing.TB, ncommon, spare, nactors int) string {
 				next(c)
 			}
 		}
-		pids[a] = e.SpawnFunc(func(c *Context) {
+		fn := func(c *Context) {
 			if _, ok := c.Message().(vUser); ok {
 				done <- a
 			}
-		}, "mw", WithID(strconv.FormatInt(atomic.AddInt64(&vProcSeq, 1), 10)), WithMiddleware(common...), WithMiddleware(own))
+		}
+		opts := []OptFunc{WithID(strconv.FormatInt(atomic.AddInt64(&vProcSeq, 1), 10)), WithMiddleware(common...), WithMiddleware(own)}
+		if asChild {
+			ack := make(chan *PID, 1)
+			e.Send(parent, vMwSpawn{fn, opts, ack})
+			select {
+			case pids[a] = <-ack:
+			case <-time.After(3 * time.Second):
+				return "NOSPAWN"
+			}
+		} else {
+			pids[a] = e.SpawnFunc(fn, "mw", opts...)
+		}
 	}
 	var out []string
 	for a := 0; a < nactors; a++ {
@@ -489,6 +513,7 @@ func runMwOpts(t testing.TB, ncommon, spare, nactors int) string {
 	for _, p := range pids {
 		<-e.Poison(p).Done()
 	}
+	<-e.Poison(parent).Done()
 	return strings.Join(out, ";")
 }
 
@@ -498,19 +523,21 @@ func TestVerifMwOpts(t *testing.T) {
 		t.Fatal(err)
 	}
 	defer w.Close()
-	emit := func(id string, nc, sp, na int) {
-		w.Case(id, fmt.Sprintf("common=%d spare=%d actors=%d", nc, sp, na), runMwOpts(t, nc, sp, na))
+	emit := func(id string, nc, sp, na, ch int) {
+		w.Case(id, fmt.Sprintf("common=%d spare=%d actors=%d child=%d", nc, sp, na, ch), runMwOpts(t, nc, sp, na, ch == 1))
 	}
 	if in, ok := vgen.ReplayInput(); ok {
-		emit("replay", vgen.KVInt(in, "common", 1), vgen.KVInt(in, "spare", 1), vgen.KVInt(in, "actors", 2))
+		emit("replay", vgen.KVInt(in, "common", 1), vgen.KVInt(in, "spare", 1), vgen.KVInt(in, "actors", 2), vgen.KVInt(in, "child", 0))
 		return
 	}
 	n := 0
 	for nc := 0; nc <= 3; nc++ {
 		for sp := 0; sp <= 2; sp++ {
 			for na := 1; na <= 3; na++ {
-				emit(fmt.Sprintf("m%d", n), nc, sp, na)
-				n++
+				for ch := 0; ch <= 1; ch++ {
+					emit(fmt.Sprintf("m%d", n), nc, sp, na, ch)
+					n++
+				}
 			}
 		}
 	}
